@@ -472,6 +472,14 @@ impl Index {
             text = text.replace("pub(crate) ", "pub ").replace("pub(super) ", "pub ");
             dropped.push(format!("{} restricted field visibilities widened to pub", nvis));
         }
+        // N19: for an enum without fields, the declaration order of its variants as a spec function (generated from the
+        // source, one line): what a derived PartialOrd / Ord compares
+        if let Ok(en) = syn::parse_str::<syn::ItemEnum>(orig) {
+            if !en.variants.is_empty() && en.variants.iter().all(|v| matches!(v.fields, syn::Fields::Unit)) && en.generics.params.is_empty() {
+                let arms: Vec<String> = en.variants.iter().enumerate().map(|(i, v)| format!("{}::{} => {}int", name, v.ident, i)).collect();
+                text.push_str(&format!("\npub open spec fn vx_variant_index_{}(x: {}) -> int {{ match x {{ {} }} }}", name, name, arms.join(", ")));
+            }
+        }
         let info = json!({"name": name, "file": f.path, "src_line_start": line_of(&f.text, range.start),
             "src_line_end": line_of(&f.text, range.end), "item_text": orig, "dropped_attrs": dropped});
         Ok((text, info))
